@@ -23,12 +23,38 @@ LEVEL_NOTE = 'Trusts: Lean kernel for the bookkeeping bound; CPython gc and asyn
 ASSUMPTIONS = ['one open TCP connection; fake streams that never block']
 
 
-def measure(loop, sched):
+def container_entries(roots):
+    """total number of entries in every built-in container (dict / list / set / tuple / deque, at any depth)
+    reachable from the given objects through attributes of tickit's own objects - whatever the attributes
+    are called.  Objects of other modules (probe devices, asyncio, immutables) are not entered."""
+    import collections
+    seen, total, todo = set(), 0, list(roots)
+    while todo:
+        o = todo.pop()
+        if id(o) in seen or o is None or isinstance(o, (str, bytes, int, float, bool)):
+            continue
+        seen.add(id(o))
+        if isinstance(o, (dict, list, set, frozenset, tuple, collections.deque)):
+            total += len(o)
+            todo.extend(o.values() if isinstance(o, dict) else o)
+            if isinstance(o, dict):
+                todo.extend(o.keys())
+        elif type(o).__module__.startswith("tickit") and not isinstance(o, type):
+            d = getattr(o, "__dict__", None)
+            if d:
+                todo.extend(d.values())
+            for sl in getattr(type(o), "__slots__", ()):
+                todo.append(getattr(o, sl, None))
+    return total
+
+
+def measure(loop, sched, comps=()):
     tasks = [t for t in asyncio.all_tasks(loop) if not t.get_name().startswith("harness")]
     retained = sum(1 for o in gc.get_objects() if isinstance(o, asyncio.Task) and o.done())
     timers = len([h for h in loop._scheduled if not h._cancelled])
     return {"live_tasks": len(tasks), "retained_done_tasks": retained, "timers": timers,
-            "wakeups": len(getattr(sched, "wakeups", {})), "pending_interrupts": len(getattr(sched, "_pending_interrupts", {}))}
+            "wakeups": len(getattr(sched, "wakeups", {})), "pending_interrupts": len(getattr(sched, "_pending_interrupts", {})),
+            "container_entries": container_entries([sched] + list(comps))}
 
 
 def long_run(scn, N, interrupts_every=0):
@@ -49,7 +75,7 @@ def long_run(scn, N, interrupts_every=0):
         state["done"] = done
         if done in marks and marks[done] is None:
             gc.collect()
-            marks[done] = measure(info["loop"], sched)
+            marks[done] = measure(info["loop"], sched, list((info.get("components") or {}).values()))
         return done >= 4 * N
 
     s2 = dict(copy.deepcopy(scn), n_ticks=4 * N + 1, max_steps=4000 * N + 20000)
@@ -66,7 +92,10 @@ def growth(marks, N, what, res, case, slack=2):
         res.violate(V("run-too-short", f"{what}: did not reach {4 * N} ticks (marks {marks})", site="run"), case)
         return
     for k in a:
-        if c[k] > a[k] + slack and (c[k] - b[k]) >= (b[k] - a[k]) > 0:
+        # the per-tick state of the tickers (accumulated inputs, roots) is part of `container_entries`: it differs from
+        # tick to tick but is bounded by the configuration, hence the larger slack there
+        sl = 10 if k == "container_entries" else slack
+        if c[k] > a[k] + sl and (c[k] - b[k]) >= (b[k] - a[k]) > 0:
             res.violate(V("resource-grows", f"{what}: {k} = {a[k]} / {b[k]} / {c[k]} after {N} / {2 * N} / {4 * N} ticks", site=k, resource=k), case)
 
 
@@ -162,9 +191,11 @@ def run(tier, seed, drv):
         "nested-depth2": {"components": [{"name": "o1", "kind": "sys", "inputs": {}, "expose": {}, "components": [
             {"name": "o2", "kind": "sys", "inputs": {}, "expose": {}, "components": [dev("deep", cb={"kind": "period", "p": P})]}]}]},
         "far-callback-interrupts": {"components": [dev("far", cb={"kind": "period", "p": 10_000 * P}), dev("x"), dev("y", {"i": ["x", "o"]})]},
+        # a far callback that is superseded by every interrupt, next to a device whose earlier callback is always pending
+        "far-and-periodic-interrupts": {"components": [dev("far", cb={"kind": "period", "p": 10_000 * P}), dev("per", cb={"kind": "period", "p": 7 * P})]},
     }
     for name, scn in scns.items():
-        for ints in ((0, 1_300_000) if name != "far-callback-interrupts" else (1_300_000,)):
+        for ints in ((0, 1_300_000) if not name.startswith("far-") else (1_300_000,)):
             marks, run_ = long_run(scn, N, interrupts_every=ints)
             case = {"scenario": scn, "N": N, "interrupts_every": ints, "name": name}
             res.case(f"{name}:{ints}", nontrivial=True, sample={"name": name, "marks": marks} if len(res.samples) < 3 else None)
@@ -187,7 +218,7 @@ def run(tier, seed, drv):
         res.violate(V("run-too-short", f"tcp run produced marks {marks}", site="tcp"), {"tcp": True, "M": M})
     res.rule = (f"4 long runs x (with/without interrupts every 1.3 ms): flat periodic, nested periodic, depth-2 nesting, a far callback pre-empted by interrupts; "
                 f"measured after N={N}, 2N, 4N master ticks: live asyncio tasks, finished-but-retained Task objects (gc), pending timers, wakeups, pending "
-                f"interrupts; plus {4 * M} messages on one TCP connection through the real handle function with fake streams, measured at M, 2M, 4M; "
+                f"interrupts, and the total number of entries in every container reachable from the scheduler and the components (whatever the attribute names); plus {4 * M} messages on one TCP connection through the real handle function with fake streams, measured at M, 2M, 4M; "
                 "a resource 'grows' if it is higher at 4N than at N by more than 2 and the second difference is at least the first")
     return res
 
